@@ -39,11 +39,18 @@ ASSUMPTIONS = [
 ]
 LEVEL = "fault_enumeration"
 REQUIRED_CLASSES = ["fault:k=0(assigned-location)", "fault:mid", "fault:last", "fault:user-function",
-                    "fault:function-task-action", "consecutive-faults", "observed:sete", "observed:setv"]
+                    "fault:function-task-action", "consecutive-faults", "observed:sete", "observed:setv",
+                    "fault-type:KeyError", "fault-type:AttributeError", "fault-type:Injected", "fault-type:RuntimeError"]
 
 
 class Injected(Exception):
     pass
+
+
+# the failing write / call may raise anything: a private exception type, or a type the library itself handles
+# somewhere (KeyError / AttributeError from a container that refuses the entry, ValueError, RuntimeError ...)
+FAULT_TYPES = {"Injected": Injected, "KeyError": KeyError, "AttributeError": AttributeError, "IndexError": IndexError,
+               "ValueError": ValueError, "RuntimeError": RuntimeError, "TypeError": TypeError, "OSError": OSError}
 
 
 def instrument_functions(roots):
@@ -73,10 +80,10 @@ def canon_event(ev):
     return tuple(ev)
 
 
-def run_observed(real, obs, fault_at=None):
+def run_observed(real, obs, fault_at=None, fault_type="Injected"):
     """-> (events, exception, injected object)"""
     W.TRACE = []
-    inj = Injected(f"injected at event {fault_at}")
+    inj = FAULT_TYPES[fault_type](f"injected at event {fault_at}")
     counter = {"n": 0}
 
     def fault(ev):
@@ -138,6 +145,7 @@ def cases(draw, opts):
     c["ops"] = list(g.ops)
     c["ks"] = [draw(st.integers(0, 40)) for _ in range(4)]
     c["seq"] = [draw(st.integers(0, 40)) for _ in range(draw(st.integers(2, 3)))]
+    c["fault_type"] = draw(st.sampled_from(sorted(FAULT_TYPES)))
     return c
 
 
@@ -168,6 +176,7 @@ def exec_case(ctx, case):
         classes.add("K1-class(replayed)")
         return finish(None, False)
     classes.add("observed:" + obs["op"])
+    classes.add("fault-type:" + case.get("fault_type", "Injected"))
     where = {"history": rendered["history"], "observed": rendered["observed"]}
     # ---- reference: the fault-free update on the twin
     Wc, Wraw, exc, _ = run_observed(twin, obs, None)
@@ -215,8 +224,8 @@ def exec_case(ctx, case):
             classes.add("fault:function-task-action")
         ctx.stats.evaluations += 1
         ctx.stats.extra["crash_points_executed"] = ctx.stats.extra.get("crash_points_executed", 0) + 1
-        got, _, exc, inj = run_observed(world, obs, k)
-        wh = dict(where, crash_point=k, events=n, failing_event=repr(ev)[:120], attempt=label)
+        got, _, exc, inj = run_observed(world, obs, k, case.get("fault_type", "Injected"))
+        wh = dict(where, crash_point=k, events=n, fault_type=case.get("fault_type", "Injected"), failing_event=repr(ev)[:120], attempt=label)
         if exc is None:
             return Failure("C18:fault-swallowed", wh)
         if exc is not inj:
